@@ -31,6 +31,8 @@ type ApiCase struct {
 		WaitReturns      bool `json:"waitReturns"`
 		FramesWritten    bool `json:"framesWritten"`
 		LateAddIsErrDone bool `json:"lateAddIsErrDone"`
+		OptionApplied    bool `json:"optionApplied"`
+		OptionBuilt      bool `json:"optionBuilt"`
 	} `json:"expect"`
 }
 
@@ -47,6 +49,17 @@ func (b nilBuilder) Build() mpb.BarFiller {
 	return nil
 }
 
+// helperKind splits "func-opt-on:true" into the helper and its condition ("" for the other kinds).
+func helperKind(kind string) (string, bool) {
+	h, c, ok := strings.Cut(kind, ":")
+	if !ok {
+		return "", false
+	}
+	return h, c == "true"
+}
+
+const helperBarID = 7777
+
 func plainFiller(w io.Writer, st decor.Statistics) error {
 	_, err := io.WriteString(w, "#")
 	return err
@@ -59,6 +72,9 @@ func runApiCase(c *ApiCase) string {
 	refresh := make(chan interface{})
 	var opts []mpb.ContainerOption
 	typed := c.C.Kind == "typed-nil"
+	helper, cond := helperKind(c.C.Kind)
+	built := 0
+	var lateOpts []mpb.ContainerOption
 	switch c.C.Mode {
 	case "manual":
 		if c.C.Site == "manual-refresh-channel" {
@@ -79,9 +95,24 @@ func runApiCase(c *ApiCase) string {
 	case "render-delay":
 		opts = append(opts, mpb.WithRenderDelay(nil))
 	case "container-option":
-		opts = append(opts, nil, mpb.ContainerOptional(mpb.WithWidth(40), false))
+		// the guarded option silences the container; it comes after WithOutput so that it decides
+		mk := func() mpb.ContainerOption { built++; return mpb.WithOutput(nil) }
+		pred := func() bool { return cond }
+		switch helper {
+		case "optional":
+			lateOpts = append(lateOpts, mpb.ContainerOptional(mpb.WithOutput(nil), cond))
+		case "opt-on":
+			lateOpts = append(lateOpts, mpb.ContainerOptOn(mpb.WithOutput(nil), pred))
+		case "func-optional":
+			lateOpts = append(lateOpts, mpb.ContainerFuncOptional(mk, cond))
+		case "func-opt-on":
+			lateOpts = append(lateOpts, mpb.ContainerFuncOptOn(mk, pred))
+		default:
+			opts = append(opts, nil, mpb.ContainerOptional(mpb.WithWidth(40), false))
+		}
 	}
 	opts = append(opts, mpb.WithOutput(output), mpb.WithWidth(60))
+	opts = append(opts, lateOpts...)
 	ctx, cancel := context.WithCancel(context.Background())
 	defer cancel()
 	p := mpb.NewWithContext(ctx, opts...)
@@ -114,7 +145,21 @@ func runApiCase(c *ApiCase) string {
 	case "filler-middleware":
 		b, err = p.Add(3, mpb.BarFillerFunc(plainFiller), append(bopts, mpb.BarFillerMiddleware(nil))...)
 	case "bar-option":
-		b, err = p.Add(3, mpb.BarFillerFunc(plainFiller), append(bopts, nil, mpb.BarOptional(mpb.BarRemoveOnComplete(), false))...)
+		mk := func() mpb.BarOption { built++; return mpb.BarID(helperBarID) }
+		pred := func() bool { return cond }
+		switch helper {
+		case "optional":
+			bopts = append(bopts, mpb.BarOptional(mpb.BarID(helperBarID), cond))
+		case "opt-on":
+			bopts = append(bopts, mpb.BarOptOn(mpb.BarID(helperBarID), pred))
+		case "func-optional":
+			bopts = append(bopts, mpb.BarFuncOptional(mk, cond))
+		case "func-opt-on":
+			bopts = append(bopts, mpb.BarFuncOptOn(mk, pred))
+		default:
+			bopts = append(bopts, nil, mpb.BarOptional(mpb.BarRemoveOnComplete(), false))
+		}
+		b, err = p.Add(3, mpb.BarFillerFunc(plainFiller), bopts...)
 	case "queue-after":
 		b, err = p.Add(3, mpb.BarFillerFunc(plainFiller), append(bopts, mpb.BarQueueAfter(nil))...)
 	default:
@@ -171,6 +216,21 @@ func runApiCase(c *ApiCase) string {
 	}
 	if !c.Expect.FramesWritten && c.C.Site == "output" && frames != 0 {
 		return "a nil output received writes"
+	}
+	if helper != "" {
+		if strings.HasPrefix(helper, "func-") && (built > 0) != c.Expect.OptionBuilt {
+			return fmt.Sprintf("%s with condition %v built the option %d times", helper, cond, built)
+		}
+		switch c.C.Site {
+		case "bar-option":
+			if (b.ID() == helperBarID) != c.Expect.OptionApplied {
+				return fmt.Sprintf("%s with condition %v: the bar's id is %d", helper, cond, b.ID())
+			}
+		case "container-option":
+			if c.Expect.OptionApplied && frames != 0 {
+				return fmt.Sprintf("%s with condition true: the guarded option (no output) was not applied, %d writes", helper, frames)
+			}
+		}
 	}
 	if _, err := p.Add(1, nil); !errors.Is(err, mpb.ErrDone) {
 		return fmt.Sprintf("late Add returned %v", err)
